@@ -223,7 +223,22 @@ func (m *Mail) selBox(si int) *model.Mailbox {
 // The third result tells whether UID form could be used (all UIDs known).
 func (m *Mail) setText(si int, a core.Action, base int, uidForm bool) (string, []int, bool) {
 	n := m.viewCount(si)
-	txt, seqs := SeqSet(a.Arg(base), a.Arg(base+1), a.Arg(base+2), n)
+	mode, x, y := a.Arg(base), a.Arg(base+1), a.Arg(base+2)
+	if abs(mode)%6 == 5 && n > 0 {
+		// lists: "n,n" and descending lists trigger separately reported defects
+		p, q := 1+abs(x)%n, 1+abs(y)%n
+		if p == q && m.E.Sc.C("dupset") == 0 {
+			mode = 0
+		} else if p > q && m.E.Sc.C("revlist") == 0 {
+			x, y = y, x
+		}
+	}
+	txt, seqs := SeqSet(mode, x, y, n)
+	a = core.Action{K: a.K, S: a.S, A: append([]int(nil), a.A...)}
+	for len(a.A) <= base+2 {
+		a.A = append(a.A, 0)
+	}
+	a.A[base], a.A[base+1], a.A[base+2] = mode, x, y
 	if !uidForm || n == 0 {
 		return txt, seqs, false
 	}
@@ -282,19 +297,6 @@ func (m *Mail) tame(a core.Action) core.Action {
 	case "store":
 		if sc.C("flagcase") == 0 {
 			b.A[5] = 0
-		}
-	}
-	if a.K == "store" || a.K == "copy" || a.K == "move" || a.K == "fetch" || a.K == "uidexpunge" {
-		if abs(b.A[0])%6 == 5 {
-			n := m.viewCount(abs(a.S) % len(m.Sess))
-			if n > 0 {
-				x, y := 1+abs(b.A[1])%n, 1+abs(b.A[2])%n
-				if x == y && sc.C("dupset") == 0 {
-					b.A[0] = 0
-				} else if x > y && sc.C("revlist") == 0 {
-					b.A[1], b.A[2] = b.A[2], b.A[1]
-				}
-			}
 		}
 	}
 	return b
